@@ -83,7 +83,12 @@ def elementwise(case):
         h, w = sint("h"), sint("w")
         requires(And(h >= 0, w >= 0))
         shape, size = (h, w), h * w
-    ghost("sref_classes", set())
+    # array elements are expressions of unknown structure: code that asks for their class is outside this contract
+    # (the answer is not "no class at all"); the bounded tier runs arrays with variable and with compound elements
+    def _element_class(v, cls):
+        raise OutOfSubset("the code inspects the class of an array element (%s)" % getattr(cls, "name", cls))
+    ghost("sref_isinstance", _element_class)
+    ghost("sref_pytype", lambda v, t: (_ for _ in ()).throw(OutOfSubset("the code inspects the Python type of an array element")))
     operands = [_mk_operand(k, j, case.dim, shape, size) for j, k in enumerate(kinds)]
     vals = [v for v, _ in operands]
 
